@@ -141,15 +141,28 @@ def coord_ints(var):
     return v
 
 
+_ATOL = {}
+
+
 def judge_find(rec, da, xs, ys, atol_value, min_n, model_runs, *, sub, min_n_arg=None, site='find_plateaus'):
     """One find_plateaus call + collapse, judged against the model.  Returns 'returned' | 'guard'."""
     rec.transitions += 1
-    atol = sc.scalar(atol_value, unit='Hz/s')
+    # one tolerance Variable per value, reused by every call of this worker (as a caller would), given in exactly the
+    # unit of the slope so that an internal `to(unit=..., copy=False)` is the identity
+    atol = _ATOL.get(atol_value)
+    if atol is None:
+        atol = _ATOL[atol_value] = sc.scalar(atol_value, unit='Hz/s')
     try:
         p = find_plateaus(da, atol=atol, min_n_points=min_n if min_n_arg is None else min_n_arg)
     except RuntimeError as e:
         if 'exceed the tolerance' not in str(e):
             raise
+        p = None
+    finally:
+        if atol.value != atol_value or atol.unit != sc.Unit('Hz/s'):
+            rec.viol(site, 'tolerance_argument_modified', f'the caller\'s atol was {atol_value} Hz/s before the call and is {atol.value} {atol.unit} after it', **sub)
+            _ATOL[atol_value] = sc.scalar(atol_value, unit='Hz/s')
+    if p is None:
         rec.cls('guard_fired')
         rec.observe('guard')
         return 'guard'
